@@ -882,7 +882,9 @@ Lemma eval_loop_attr fu env c f :
   eval (S (S fu)) env c (EAttr (EVar b#"loop") f) = (vo_get_attr (rc_get_var c b#"loop") f, []).
 Proof.
   intro Hm. cbn [eval]. unfold ev_expr at 1. rewrite ev_sandbox_denies_attr.
-  unfold ev_expr. rewrite ev_sandbox_denies_var, Hm.
+  unfold ev_expr. rewrite ev_sandbox_denies_var.
+  replace (ev_var_macro c b#"loop") with (@None (bytes * bytes))
+    by (unfold ev_var_macro; rewrite Hm; destruct (rc_own_var c b#"loop"); reflexivity).
   change (rc_hack_name b#"loop") with false. cbn [ev_ret ev_bind ev_lift].
   destruct (vo_get_attr (rc_get_var c b#"loop") f); reflexivity.
 Qed.
